@@ -67,6 +67,10 @@ class McServer:
         self.name = name
         self.version = version
         self.shutdown_enabled = shutdown_enabled
+        # keys whose stores the server refuses although they are well-formed: key -> "too-large" (the server's own item
+        # size limit is lower than the client thinks), "oom", "not-stored"
+        self.refuse = {}
+        self.refuse_cas = True
         self.store = {}
         self.cas_counter = 0
         self.flush_at = None          # items stored before this instant die once it is reached
@@ -218,7 +222,10 @@ class McConn:
             if bad == "wrong number of tokens":
                 return None if noreply else b"ERROR\r\n"
             return None if noreply else b"CLIENT_ERROR bad command line format\r\n"
-        if length > ITEM_MAX - len(key) - 80:
+        mode = s.refuse.get(key) if verb != b"cas" or s.refuse_cas else None
+        if verb == b"cas" and mode == "not-stored":
+            mode = None            # NOT_STORED is no answer to cas
+        if length > ITEM_MAX - len(key) - 80 or mode == "too-large":
             # too large: the data block is swallowed
             self.pending = rest
             self.swallow = length + 2
@@ -239,6 +246,12 @@ class McConn:
             return None if noreply else b"CLIENT_ERROR bad data chunk\r\n"
         s.log.append({"verb": verb, "key": key, "flags": flags, "exptime": exptime, "length": length,
                       "data": data, "cas": casid, "noreply": noreply})
+        if mode == "oom":
+            # memory exhausted with evictions disabled (-M): the item is read and refused
+            return None if noreply else b"SERVER_ERROR out of memory storing object\r\n"
+        if mode == "not-stored":
+            # what a proxy in front of the cache (mcrouter) answers when it could not complete a store
+            return None if noreply else b"NOT_STORED\r\n"
         res = self._apply_store(verb, key, flags, exptime, data, casid)
         return None if noreply else res + b"\r\n"
 
